@@ -1,1 +1,125 @@
-// harnesses for handler (none yet)
+// handler.rs is not encodable for the solver (DESIGN.md F7). The functions here are NATIVE-ONLY
+// validation runs (role native-validation in lib/registry.py): the real DhtHandler is driven with a
+// recording socket on pseudo-random inputs by the native replay runner. They complement the
+// solver-decided codec-level checks with evidence that the handler applies the limits those checks
+// read from the code; they do not decide a property.
+use super::*;
+use crate::message::GetPeersRequest;
+use crate::SocketTrait;
+use async_trait::async_trait;
+use std::future::Future;
+use std::io;
+use std::net::{Ipv4Addr, Ipv6Addr};
+use std::pin::pin;
+use std::task::{Context, Poll, Waker};
+
+struct CaptureSocket {
+    local_addr: SocketAddr,
+    sent: Arc<Mutex<Vec<(Vec<u8>, SocketAddr)>>>,
+}
+
+#[async_trait]
+impl SocketTrait for CaptureSocket {
+    async fn send_to(&self, buf: &[u8], target: &SocketAddr) -> io::Result<()> {
+        self.sent.lock().unwrap().push((buf.to_vec(), *target));
+        Ok(())
+    }
+    async fn recv_from(&self, _buf: &mut [u8]) -> io::Result<(usize, SocketAddr)> {
+        std::future::pending().await
+    }
+    fn local_addr(&self) -> io::Result<SocketAddr> {
+        Ok(self.local_addr)
+    }
+}
+
+/// The handler's futures only await the recording socket: one poll completes them.
+fn run<F: Future>(f: F) -> F::Output {
+    let mut f = pin!(f);
+    let mut cx = Context::from_waker(Waker::noop());
+    match f.as_mut().poll(&mut cx) {
+        Poll::Ready(v) => v,
+        Poll::Pending => panic!("model: handler future did not complete in one poll"),
+    }
+}
+
+fn v4(n: u16) -> SocketAddr {
+    (Ipv4Addr::new(10, 0, (n >> 8) as u8, n as u8), 6881u16.wrapping_add(n)).into()
+}
+
+fn v6(n: u16) -> SocketAddr {
+    (Ipv6Addr::new(0x2001, 0xdb8, 0, 0, 0, 0, 0, n.wrapping_add(1)), 6881u16.wrapping_add(n)).into()
+}
+
+/// NATIVE ONLY: a serving node with up to 8+8 contacts and up to 300+300 stored peers answers a
+/// get_peers query (requester family, want, transaction id length 0..=32 pseudo-random): exactly
+/// one datagram, to the requester, at most 1500 bytes, decodable.
+#[kani::proof]
+fn c17_handler_get_peers_reply_fits_native() {
+    crate::verif::clock::start_fixed();
+    let requester_v6: bool = kani::any();
+    let want = match kani::any::<u8>() % 4 {
+        0 => None,
+        1 => Some(Want::V4),
+        2 => Some(Want::V6),
+        _ => Some(Want::Both),
+    };
+    let tid_len = (kani::any::<u8>() % 33) as usize;
+    let n_contacts4 = (kani::any::<u8>() % 9) as usize;
+    let n_contacts6 = (kani::any::<u8>() % 9) as usize;
+    let n_peers4 = (kani::any::<u16>() % 240) as usize;
+    let n_peers6 = (kani::any::<u16>() % 240) as usize;
+    let own_v6: bool = kani::any();
+
+    let this_node_id = NodeId::from([0x55; 20]);
+    let info_hash = InfoHash::from([0x77; 20]);
+    let sent = Arc::new(Mutex::new(Vec::new()));
+    let local_addr: SocketAddr = if own_v6 {
+        (Ipv6Addr::LOCALHOST, 6881).into()
+    } else {
+        (Ipv4Addr::LOCALHOST, 6881).into()
+    };
+    let socket = Socket::new(CaptureSocket { local_addr, sent: sent.clone() }).unwrap();
+    // DhtHandler::new touches tokio's timer/watch machinery: give it a runtime context (native only)
+    let rt = tokio::runtime::Builder::new_current_thread().enable_all().build().unwrap();
+    let _guard = rt.enter();
+    let (_command_tx, command_rx) = mpsc::unbounded_channel();
+    let mut handler = DhtHandler::new(this_node_id, socket, false, HashSet::new(), HashSet::new(), None, command_rx);
+    {
+        let mut table = handler.routing_table.lock().unwrap();
+        for n in 0..n_contacts4 {
+            table.add_node(Node::as_good(this_node_id.flip_bit(2 * n), v4(n as u16)));
+        }
+        for n in 0..n_contacts6 {
+            table.add_node(Node::as_good(this_node_id.flip_bit(2 * n + 1), v6(n as u16)));
+        }
+    }
+    for n in 0..n_peers4 {
+        assert!(handler.active_stores.add_item(info_hash, v4(1000 + n as u16)), "model: store refused a peer below capacity");
+    }
+    for n in 0..n_peers6 {
+        assert!(handler.active_stores.add_item(info_hash, v6(1000 + n as u16)), "model: store refused a peer below capacity");
+    }
+    let requester = if requester_v6 { v6(5000) } else { v4(5000) };
+    let mut tid = Vec::new();
+    for _ in 0..tid_len {
+        tid.push(kani::any::<u8>());
+    }
+    let query = Message {
+        transaction_id: tid.clone(),
+        body: MessageBody::Request(Request::GetPeers(GetPeersRequest { id: NodeId::from([0x99; 20]), info_hash, want })),
+    };
+    run(handler.handle_incoming(query, requester)).expect("model: handler returned an error");
+    let sent = sent.lock().unwrap();
+    assert!(sent.len() == 1 && sent[0].1 == requester, "model: get_peers query not answered by exactly one datagram to the requester");
+    let reply = &sent[0].0;
+    assert!(reply.len() <= 1500, "C17: the node emitted a get_peers reply longer than 1500 bytes");
+    let decoded = Message::decode(reply);
+    assert!(decoded.is_ok(), "C17: the node emitted a reply another instance cannot decode");
+    if let Ok(Message { transaction_id, body: MessageBody::Response(r) }) = decoded {
+        assert!(transaction_id == tid, "model: transaction id not echoed");
+        assert!(r.values.iter().all(|a| a.is_ipv6() == requester_v6), "model: values of the wrong family");
+        assert!(r.nodes_v4.len() <= 8 && r.nodes_v6.len() <= 8, "model: more than 8 nodes of a family");
+    } else {
+        panic!("model: reply is not a response");
+    }
+}
